@@ -48,6 +48,13 @@ class C19(FlowCheck):
                   ['N', [4]]]),
             struct({'main': [['line', 10], ['let', 0, 3], ['for', 4, 1, V(0), 1, 1, [['print', V(4)], ['gosub', 1000]]]],
                     'subs': [[1000, [['let', 0, ['-', V(0), 2]]]]]}),
+            # abandoned loops: a stale record for the same NEXT stays on the stack; NEXT uses the most recent one
+            flat([L(10), ['=', 0, 5], ['GS', 500], ['=', 0, 3], ['GS', 500], ['END'],
+                  L(500), ['F', 4, 1, V(0), 1], ['P', V(4)], ['IF', ['=', V(2), 0], None], ['=', 2, 1], ['R', None],
+                  L(510), ['N', []], ['R', None]]),
+            flat([L(10), ['W', ['<', V(1), 3]], ['=', 1, ['+', V(1), 1]], ['=', 0, ['-', 5, V(1)]],
+                  L(20), ['F', 4, 1, V(0), 1], ['P', V(4)], ['IF', ['=', V(1), 1], 40],
+                  L(30), ['N', [4]], L(40), ['D']]),
             # D19a: zero-trip inner loop closed by NEXT J, I
             flat([L(10), ['F', 4, 1, 2, 1], ['F', 5, 2, 1, 1], ['P', 9], ['N', [5, 4]], L(20), ['P', 4]]),
             # D19b: counter leaves the 16-bit range downwards / upwards
